@@ -18,7 +18,7 @@ ASSUMPTIONS = ['line = number of line breaks (CRLF, CR or LF) in the final resul
                'return what they are given (or a same-line rewrite of it), so line breaks enter only through the configured newline and through multi-line placeholders',
                'text with explicit fields is only put on leaves (a value with fields AND children is split around the children: two values)',
                'the 1,2,3... clause is checked when the abbreviation has no explicit field and no snippet name whose definition carries fields']
-FLOORS = {'quick': {'run': 22000, 'callback-event': 1500000, 'stylesheet-run': 3500}, 'thorough': {'run': 450000, 'callback-event': 12000000, 'stylesheet-run': 60000}}
+FLOORS = {'quick': {'nothing-to-wrap': 4000, 'run': 22000, 'callback-event': 1500000, 'stylesheet-run': 3500}, 'thorough': {'nothing-to-wrap': 75000, 'run': 450000, 'callback-event': 12000000, 'stylesheet-run': 60000}}
 REQUIRED_MONITORS = ['oracle:callback-position', 'oracle:tabstop-numbering', 'probe:offset-bookkeeping']
 N = {'quick': 2500, 'thorough': 30000}
 MARKUP = ['html', 'xml', 'jsx', 'vue', 'pug', 'haml', 'slim']
@@ -207,6 +207,10 @@ class Mon:
                         'events(first 6)': [list(e) for e in run.ev[:6]]})
 
 
+NOTEXT_NAMES = ['p', 'div', 'li', 'span', 'br', 'img', 'a', 'td', 'x-y', 'hr']
+NOTEXT_PARENTS = ['p', 'div', 'li', 'span', 'a', 'td', 'x-y']       # (an empty element with children is written with a closing tag: keep the reader simple)
+NOTEXT_FORMS = ['X*', 'P>X*', '(P>Y)*', 'Q>P*>Y', 'X*+Z', 'X.c1*', 'P>(X+Y)*', 'X[d1]*', 'X', 'P>X', 'X+Y', 'P>X+Y', 'P*2>Y*', '(X*)+Z', 'P>Q>X*']
+NOTEXT_TEXTS = [None, None, None, '', '', [], [''], ['', '  ']]      # (a blank-only STRING is one chunk put in as it is: not empty content)
 CSS_ABBRS = ['p10+m', 'bd', 'm+p+c', 'anim', '@kf', 'trf:r', 'bxsh', 'c#f+bgc', 'p${1:foo}', 'lg', 'fz1.5+lh', '@m', 'cnt', 'to', 'bgp', 'p!+m0-a',
              'c:"a\nb"', "cnt:'x\r\ny'${1:z}", 'bg:u("a\nb")', 'ff:"l1\rl2"', 'cnt:"one\n\nthree"', 'p${1:a\nb}', 'm${1:t\n}+p', 'p${1:x\x0cy}${2:u\u2028v}+m', 'c:"f\x0cg"+m']
 
@@ -266,6 +270,15 @@ def run_shard(desc, ctx):
             if mode != 'id':
                 flags['numbering'] = False       # length-changing text callbacks rewrite the markers' surroundings only, but keep the reader simple
             mon.check(abbr, {'syntax': syntax, 'options': opts}, mode, flags, 'run')
+            if i % 5 == 0:
+                # nothing to wrap: an implicit repeater without text, or a text that is empty once trimmed, leaves the element empty - it is a leaf like any other
+                x, y, z = rng.choice(NOTEXT_NAMES), rng.choice(NOTEXT_NAMES), rng.choice(NOTEXT_NAMES)
+                a = rng.choice(NOTEXT_FORMS).replace('X', x).replace('Y', y).replace('Z', z).replace('P', rng.choice(NOTEXT_PARENTS).upper()).replace('Q', rng.choice(NOTEXT_PARENTS).upper()).lower()
+                cfg = {'syntax': rng.choice(['html', 'xml', 'jsx', 'vue']), 'options': opts}
+                t = rng.choice(NOTEXT_TEXTS)
+                if t is not None:
+                    cfg['text'] = t
+                mon.check(a, cfg, 'id', {'numbering': True, 'snippet_names': False, 'explicit': False}, 'nothing-to-wrap')
             if i % 6 == 0:
                 a = '+'.join(rng.choice(CSS_ABBRS) for _ in range(rng.randint(1, 3)))
                 sopts = {'output.newline': rng.choice(['\n', '\r\n', '\r']), 'output.baseIndent': rng.choice(['', '  ', '\t'])}
